@@ -94,6 +94,10 @@ type BFSOpts struct {
 	// Classify maps an oracle failure to a known-findings key (default: first word).
 	Classify  func(fail string, path []int) string
 	MaxStates int // cap (0 = none)
+	// Prefix: explore only histories that start with these events (sharding by subtree;
+	// the prefix transitions themselves are checked by the shard whose CheckPrefix is set)
+	Prefix      []int
+	CheckPrefix bool
 }
 
 type BFSReplay struct {
@@ -109,10 +113,34 @@ func BFS(r *Run, o BFSOpts) (states, transitions int) {
 	type node struct{ path []int }
 	seen := map[string]bool{}
 	var initKey string
-	o.Run(func(m Model) { initKey = m.Key() })
+	prefixFail := ""
+	o.Run(func(m Model) {
+		for _, e := range o.Prefix {
+			if f := m.Apply(e); f != "" && prefixFail == "" {
+				prefixFail = f
+			}
+		}
+		initKey = m.Key()
+	})
+	if prefixFail != "" {
+		if o.CheckPrefix {
+			var names []string
+			for _, e := range o.Prefix {
+				names = append(names, o.EvName(e))
+			}
+			k := prefixFail
+			if o.Classify != nil {
+				k = o.Classify(prefixFail, o.Prefix)
+			} else if i := indexSpace(prefixFail); i > 0 {
+				k = prefixFail[:i]
+			}
+			r.Violation(k, fmt.Sprintf("%s history %v: %s", o.Name, names, prefixFail), BFSReplay{o.Name, o.Prefix, names})
+		}
+		return 0, 0
+	}
 	seen[initKey] = true
-	frontier := []node{{nil}}
-	for depth := 0; depth < o.MaxDepth && len(frontier) > 0; depth++ {
+	frontier := []node{{append([]int{}, o.Prefix...)}}
+	for depth := len(o.Prefix); depth < o.MaxDepth && len(frontier) > 0; depth++ {
 		var next []node
 		for _, n := range frontier {
 			for ev := 0; ev < o.NEvents; ev++ {
